@@ -149,10 +149,15 @@ def targeted(rng):
         g = docgen.Gen(rng, 'full')
         def run(t, f=None, dt=False): return ['run', g.fresh(), f, [['dt' if dt else 't', t]]]
         c1 = g.add_comment(); ns = [run('Lead ')]
+        g.rev = 4 + v          # revision ids differ from the comment's id (a reader that confuses the two must show)
         if v % 4 == 0: ns += [['crs', c1], ['del', g.fresh(), g.mark('Bob Smith'), [run('old ', None, True)]], ['cre', c1], ['ins', g.fresh(), g.mark('Bob Smith'), [run('new ')]], run(' tail'), g.ref_run(c1)]
         elif v % 4 == 1: ns += [['ins', g.fresh(), g.mark(), [['crs', c1], run('first '), ['cre', c1], run('second ')]], ['ins', g.fresh(), g.mark(), [run('third')]], run(' x'), g.ref_run(c1)]
         elif v % 4 == 2: ns += [['crs', c1], run('commented '), ['del', g.fresh(), g.mark(), [run('gone', None, True)]], ['cre', c1], g.ref_run(c1), ['ins', g.fresh(), g.mark(), [run('added')]]]
         else: ns += [['crs', c1], ['cre', c1], g.ref_run(c1), run('point comment before this')]
+        if v in (5, 9):      # a comment that starts inside an insertion and ends after it / starts in plain text and ends inside one
+            c2 = g.add_comment()
+            if v == 5: ns += [run(' and '), ['ins', g.fresh(), g.mark(), [run('opening '), ['crs', c2], run('inside ')]], run('outside '), ['cre', c2], g.ref_run(c2), run('after')]
+            else: ns += [run(' and '), ['crs', c2], run('before '), ['ins', g.fresh(), g.mark(), [run('inside '), ['cre', c2], run('rest ')]], g.ref_run(c2), run('after')]
         g.pid += 1
         d = {'stories': [{'kind': 1, 'blocks': [{'t': 'p', 'pid': g.pid, 'ppr': 0, 'style': ['N', False], 'nodes': ns}]}], 'comments': g.comments,
              'next_uid': g.uid + 1000, 'rpr_table': g.table_list(), 'features': ['targeted'] + (['point_comment'] if v % 4 == 3 else [])}
